@@ -253,7 +253,11 @@ func (g *gemExtension) compare(e extension) int {
 			return -1
 		}
 		if ac == versionNumeric {
-			return sgn64(a.int, b.int)
+			// Equal numbers may be spelled differently ("01" vs "1").
+			if c := sgn64(a.int, b.int); c != 0 {
+				return c
+			}
+			continue
 		}
 		c := strings.Compare(a.str, b.str)
 		if c == 0 {
